@@ -169,7 +169,7 @@ def check_tree(case, R):
     R.outcome(*oracle(R, t, p, kind, ctx))
 
 
-def oracle(R, t, p, kind, ctx):
+def oracle(R, t, p, kind, ctx, lm=None, long_radii=False):
     """The complete definitional oracle on the tree object t, whose CURRENT content is parent list p and the
     coordinates its columns hold.  Returns a summary of what was observed (for the outcome count)."""
     from swcgeom.analysis import Sholl, extract_feature
@@ -193,7 +193,7 @@ def oracle(R, t, p, kind, ctx):
         R.check(close(v, L), "length", lambda: f"{ctx}: Tree.length {v} want {L}", "length:Tree.length")
 
     # ---- B. branch and path objects, keyed by their node sequence
-    lm = LMeasure()
+    lm = LMeasure() if lm is None else lm  # histories hand in ONE LMeasure object used for every tree of the sequence
     ref_br = {tuple(b) for b in RF.branches(p)}
     ok, brs = R.impl("get_branches", t.get_branches)
     if ok:
@@ -387,6 +387,23 @@ def oracle(R, t, p, kind, ctx):
                 ok2, v = R.impl("front.get((sholl,{steps}))", fe.get, ("sholl", {"steps": list(radii)}))
                 if ok2:
                     R.check(flt(v) == [float(c) for c in want_counts], "front:sholl", lambda: f"{ctx}: get(('sholl', {{steps}})) = {flt(v)} want {want_counts}", "front:sholl:tuple")
+                if long_radii and radii:
+                    # the same extractor asked for two LONG profiles (thousands of radii, as for a fine Sholl curve) that agree at both
+                    # ends and differ only in the middle, as arrays and as lists: one count per requested radius, each time
+                    m_ = len(radii)
+                    for size in (1001, 1500):
+                        idx_a = [j % m_ for j in range(size)]
+                        idx_b = idx_a[:5] + [(j * 7 + 3) % m_ for j in range(size - 10)] + idx_a[-5:]
+                        for tag, idx_ in (("first", idx_a), ("second", idx_b)):
+                            req = np.array([radii[j] for j in idx_])
+                            wantv = [float(want_counts[j]) for j in idx_]
+                            for what_, fn_ in (("front.get(sholl, long array)", lambda: fe.get("sholl", steps=req)),
+                                               ("Sholl.get(long array)", lambda: Sholl(t).get(req))):
+                                ok2, v = R.impl(what_, fn_)
+                                if ok2:
+                                    R.check(flt(v) == wantv, "sholl:long-profile", lambda: f"{ctx}: {what_}, {size} radii, {tag} request: "
+                                            f"{sum(1 for a_, b_ in zip(flt(v), wantv) if a_ != b_)} of {size} counts wrong (lengths {len(flt(v))}/{size})",
+                                            f"sholl:long-profile:{what_.split('(')[0]}:{tag}")
                 if max(rd) > 0.0:
                     for k in (None, 2, 5):
                         ok2, v = R.impl("front.get(sholl)", (lambda: fe.get("sholl")) if k is None else (lambda: fe.get("sholl", steps=k)))
@@ -547,12 +564,16 @@ def check_history(case, R):
     when returned, some are retained and re-inspected after the later calls."""
     sel = [int(v) for v in case[1]]
     R.state(sel)
+    from swcgeom.analysis.lmeasure import LMeasure
+
     objs, outs = {}, []
+    shared_lm = LMeasure()  # one measuring object for the whole sequence (how LMeasure is used over a data set)
     for pos, k in enumerate(sel):
         p, bank_k = HIST_TREES[k]
         if k not in objs:
             objs[k] = build.make_tree(list(p), bank_k=bank_k)
-        outs.append(oracle(R, objs[k], list(p), "gen", f"history {sel} step {pos} (tree {k}: p={list(p)} bank={bank_k})"))
+        outs.append(oracle(R, objs[k], list(p), "gen", f"history {sel} step {pos} (tree {k}: p={list(p)} bank={bank_k}), one LMeasure object for all steps",
+                           lm=shared_lm, long_radii=(pos == len(sel) - 1)))
     R.outcome(sel, outs)
 
 
